@@ -368,8 +368,15 @@ func constructorScript(r *idRow, envSrc string, report func(Fail), harness func(
 				continue // FunctionType(parameters:return:) builds impure function types
 			}
 			var ps []string
+			nonStorable := false
 			for k := range t.Ps {
 				ps = append(ps, typeExpr(&t.Ps[k]))
+				// the argument is an array of Type values; a Type value of a non-storable type (function,
+				// reference) cannot be put into an array at run time ("cannot store non-storable type")
+				nonStorable = nonStorable || mentions(&t.Ps[k], func(x *TT) bool { return x.K == "fun" || x.K == "ref" })
+			}
+			if nonStorable {
+				continue
 			}
 			ctor = "FunctionType(parameters: [" + strings.Join(ps, ", ") + "], return: " + typeExpr(t.R) + ")"
 		case "nom":
